@@ -2,7 +2,7 @@
 from __future__ import annotations
 
 from .. import core, pipeline as P
-from ..core import cstr, clist, copt
+from ..core import cstr, clist, copt, cpair, cforest
 
 ID = "C16"
 THEOREM_FILE = "Properties/C16.v"
@@ -11,13 +11,31 @@ META = {
             "on every run (coq/Gen/Src_api.v); C16_same proves, for every vendor, rulebook, ordering and config pair "
             "and for ANY rule logic, that both front ends return the same stripped diff, patch tree and command paths, "
             "because both build the patch from the same diff; C16_strip_first_refuted shows the pre-fix flow differs. "
-            "Correspondence: both real front ends run on the shipped before/after corpus, cross pairs per hardware and "
-            "synthetic rulebooks; Coq evaluates their equality (P_C16) and the model's agreement with each.",
-    "technique": "regenerated data-flow table + Coq proof by computation; vm_compute equality check on the two real front ends",
+            "Text level (the reader both front ends share, parse_to_tree on a dump text): proved for all inputs on the "
+            "model of the parser that comment/blank lines, trailing blanks and the left margin of every '#'-terminated "
+            "section (VRP5 style) do not change the outcome (C16_text_*_neutral), that the '#' lines may be dropped only "
+            "when every section starts in column 0, and that a reader dropping the '!'/'#' lines before parsing reads "
+            "another tree from a VRP5-style dump (C16_text_dropping_marked_lines_refuted). "
+            "Correspondence (tested, not proved): both real front ends run on the shipped before/after corpus, cross "
+            "pairs per hardware and synthetic rulebooks; on a share of the pairs both start from vendor-style dump TEXTS "
+            "with such noise (device side: parse_to_tree as annet.gen calls it, then _diff_and_patch; file side: real "
+            "files through _read_old_new_hw and _read_old_new_diff_patch, and file_patch_worker / file_diff_worker "
+            "themselves on a part of them). Coq evaluates P_C16 / P_C16t on the real outputs (equal trees read, equal "
+            "diff, patch, command paths, and the workers' printed text equal to the text formatted from the device "
+            "side's result: plain string equality of two real outputs) and the model's agreement with each side "
+            "(front ends on synthetic rulebooks; parse model = real parse on every dump text).",
+    "technique": "regenerated data-flow table + Coq proof by computation; unbounded induction over the line/item stream "
+                 "for the text-level laws; vm_compute equality check on the two real front ends",
+    "note": "The file reader itself (_read_device_config: open/read, hw guessing) is not in the model; it is tied to the "
+            "device-side parse by the correspondence run only. Hardware guessing (no --hw) is outside the comparison.",
 }
 IMPORTS = P.PIPE_IMPORTS + "\nFrom Annet Require Import Spec.P_C16."
 # the predicate on observed outputs alone: independent of the regenerated data-flow table (Gen/Src_api.v)
 IMPORTS_OBS = P.PIPE_IMPORTS + "\nFrom Annet Require Import Spec.P_C16o."
+# the text level: dump texts, the trees each side read from them, the front ends' outputs and the workers' printed texts
+IMPORTS_TEXT = P.PIPE_IMPORTS + "\nFrom Annet Require Import Spec.P_C16o Spec.P_C16t."
+# ... plus the model of the reader (needs the regenerated vendor table Gen/Src_vendors.v)
+IMPORTS_READER = IMPORTS_TEXT + "\nFrom Annet Require Import Spec.P_C16r."
 
 
 def coq_side(s: dict) -> tuple[str, str, str]:
@@ -30,8 +48,75 @@ def coq_obs(r: dict) -> str:
     return "(Obs16 " + " ".join(coq_side(r["dev"]) + coq_side(r["file"])) + ")"
 
 
+def coq_obs_text(r: dict) -> str:
+    w = r.get("workers") or {}
+    printed = [cpair(cstr(w["dev_" + k]), cstr(w["file_" + k])) for k in ("patch", "diff") if ("dev_" + k) in w]
+    fo = copt(None if r["file_old"] is None else cforest(r["file_old"]))
+    fn = copt(None if r["file_new"] is None else cforest(r["file_new"]))
+    return (f"(Obs16t {cstr(r['vendor'])} {cstr(r['old_text'])} {cstr(r['new_text'])} {cforest(r['old'])} {cforest(r['new'])} "
+            f"{fo} {fn} {coq_obs(r)} {clist(printed)})")
+
+
+def text_stage(ctx, recs: list, skipped: list) -> dict:
+    """the jobs the runner took through the TEXT level: vendor-style dump texts with neutral noise, device side parsed
+    as annet.gen does, file side through the real files and (on a share) the file workers themselves."""
+    obs = recs
+    terms = [coq_obs_text(r) for r in obs]
+    try:
+        res = core.run_case_files(ID, "obs16t", IMPORTS_READER,
+                                  {"holds": "P_C16t", "agree_reader": "agree_reader", "modelled": "reader_vendor_modelled"},
+                                  terms, per_file=40, tag="text")
+    except core.CheckFailure:
+        # the reader model does not build (the vendor table could not be regenerated from a changed source):
+        # the property predicate on the real outputs does not depend on it
+        res = core.run_case_files(ID, "obs16t", IMPORTS_TEXT, {"holds": "P_C16t"}, terms, per_file=40, tag="text")
+        res["agree_reader"], res["modelled"] = [], list(range(len(terms)))
+    for i in res["holds"][:3]:
+        r = obs[i]
+        w = r.get("workers") or {}
+        if r["file_old"] != r["old"] or r["file_new"] != r["new"]:
+            what, sig = "the file reader and the device-side parse read different trees from the same dump text", "reader"
+        elif r["dev"] != r["file"]:
+            what, sig = "file mode and device mode differ on the same dump texts", "front-ends"
+        else:
+            what, sig = "file_patch_worker / file_diff_worker print a different text than the device side's result formats to", "workers"
+        ctx.add_violation(core.Violation(
+            signature=f"C16/file-and-device-mode-differ/dump-text/{sig}/{r['style']}",
+            what=f"{what}: {r['name']} on {r['hw']} ({r['style']} style)",
+            replay={"hw": r["hw"], "style": r["style"], "old_text": r["old_text"], "new_text": r["new_text"],
+                    "device": r["dev"], "file": r["file"], "file_old": r["file_old"], "file_new": r["file_new"],
+                    "device_old": r["old"], "device_new": r["new"], "workers": w}))
+    if not res["holds"]:
+        for i in res["agree_reader"][:1]:
+            r = obs[i]
+            ctx.add_violation(core.Violation(
+                signature="C16/model-impl-disagree/agree_reader",
+                what="the Coq model of parse_to_tree(text, vendor split) and the real parse differ on a dump text; "
+                     "both front ends agree with each other on everything explored",
+                replay={"correspondence": "agree_reader", "vendor": r["vendor"], "old_text": r["old_text"],
+                        "new_text": r["new_text"], "device_old": r["old"], "device_new": r["new"]}, no_input=True))
+    hist, skips = {}, {}
+    for r in skipped:
+        key = f"{r['family']}/{r['style']}: {r['skip']}"
+        skips[key] = skips.get(key, 0) + 1
+    for r in recs:
+        key = f"{r['family']}/{r['style']}"
+        hist[key] = hist.get(key, 0) + 1
+    def has_shifted_section(t):
+        ls = t.split("\n")
+        return any(a.startswith("#") and b.startswith(" ") for a, b in zip(ls, ls[1:]))
+    return {"recs": recs, "obs": obs, "res": res, "hist": hist, "skips": skips,
+            "shifted": sum(1 for r in obs if has_shifted_section(r["old_text"]) or has_shifted_section(r["new_text"])),
+            "workers": sum(1 for r in obs if r.get("workers")),
+            "modelled": len(obs) - len(res["modelled"])}
+
+
 def run(ctx):
+    import time
+    t0 = time.time()
+    walls = {}
     rep = core.proof_stage(ctx, THEOREM_FILE)
+    walls["proof"] = round(time.time() - t0, 1)
     # if the theorem file no longer builds (e.g. the front ends' data flow changed and Gen/Src_api.v cannot be
     # regenerated or the proof by computation fails) the search for a concrete failing input goes on with the
     # table-independent predicate on the two real front ends' outputs
@@ -39,11 +124,13 @@ def run(ctx):
     # (a) shipped corpus and cross pairs through both real front ends
     nsh = 16
     payloads = [{"mode": "corpus", "pairs": 4000 if ctx.thorough else 400, "seed": ctx.seed, "shard": [k, nsh],
-                 "all_cross": False} for k in range(nsh)]
+                 "all_cross": False, "text_share": 0.3 if ctx.thorough else 0.4, "text_workers": 0.4} for k in range(nsh)]
     from concurrent.futures import ThreadPoolExecutor
     with ThreadPoolExecutor(nsh) as ex:
         parts = list(ex.map(lambda p: core.run_impl("c16_runner.py", p, timeout=1500), payloads))
-    obs = [r for part in parts for r in part]
+    allrecs = [r for part in parts for r in part]
+    obs = [r for r in allrecs if "old_text" not in r]
+    text_recs = [r for r in allrecs if "old_text" in r]
     terms = [coq_obs(r) for r in obs]
     res = core.run_case_files(ID, "obs16", IMPORTS_OBS, {"holds": "P_C16"}, terms, per_file=60, tag="corpus")
     for i in res["holds"][:3]:
@@ -56,6 +143,13 @@ def run(ctx):
     for r in obs:
         if len(r["dev"].get("paths", [])) >= 2:
             nontrivial.add(core.canon_hash([r["hw"], r["old"], r["new"]]))
+    walls["corpus"] = round(time.time() - t0, 1)
+    # (c) the TEXT level (before the synthetic stage only in this listing; independent of it)
+    tx = text_stage(ctx, text_recs, [r["text_skipped"] for r in obs if "text_skipped" in r])
+    walls["text"] = round(time.time() - t0, 1)
+    for r in tx["obs"]:
+        if len(r["dev"].get("paths", [])) >= 2:
+            nontrivial.add(core.canon_hash([r["hw"], r["old_text"], r["new_text"]]))
     # (b) synthetic rulebooks: model agreement for both modes + equality
     rng = ctx.rng("synthetic")
     n = 3000 if ctx.thorough else 400
@@ -85,7 +179,7 @@ def run(ctx):
             signature="C16/file-and-device-mode-differ/synthetic-rulebook",
             what="file mode and device mode differ on a synthetic rulebook",
             replay={"case": {k: cases[i][k] for k in ("vendor", "patching", "ordering", "old", "new")}, "impl": outs[i]}))
-    if not res["holds"] and not sres["holds"]:
+    if not res["holds"] and not sres["holds"] and not tx["res"]["holds"]:
         for lab in ("agree_device", "agree_file"):
             for j in sres[lab][:1]:
                 i = keep[j]
@@ -98,29 +192,41 @@ def run(ctx):
         if len(outs[i].get("cmd_paths", [])) >= 2:
             nontrivial.add(core.canon_hash([cases[i][k] for k in ("vendor", "patching", "ordering", "old", "new")]))
     hw_hist = {}
-    for r in obs:
+    for r in allrecs:
         hw_hist[r["hw"]] = hw_hist.get(r["hw"], 0) + 1
     ctx.coverage.update({
-        "evaluations": len(obs) + len(cases),
+        "evaluations": len(obs) + len(cases) + len(tx["obs"]),
         "distinct_nontrivial": len(nontrivial),
-        "rule": "shipped before/after samples, random cross pairs of their sides per hardware, and synthetic rulebooks; "
-                "distinct by (hw/vendor, rulebook, old, new); non-trivial = device-mode patch has >= 2 command paths",
+        "rule": "shipped before/after samples, random cross pairs of their sides per hardware (a share of them as noisy "
+                "dump texts), and synthetic rulebooks; distinct by (hw/vendor, rulebook, old, new) resp. (hw, old text, "
+                "new text); non-trivial = device-mode patch has >= 2 command paths",
         "samples": [{"name": r["name"], "hw": r["hw"], "device_paths": r["dev"].get("paths"), "file_paths": r["file"].get("paths")}
                     for r in obs[:2]],
-        "traces_validated_against_impl": len(obs) + len(keep),
-        "disagreements_checked": len(sres["agree_device"]) + len(sres["agree_file"]),
+        "traces_validated_against_impl": len(obs) + len(keep) + tx["modelled"],
+        "disagreements_checked": len(sres["agree_device"]) + len(sres["agree_file"]) + len(tx["res"]["agree_reader"]),
+        "stage_end_wall_s": walls, "text_level_cases": len(tx["obs"]), "text_level_style_histogram": tx["hist"],
+        "text_level_skipped": tx["skips"], "text_level_with_shifted_section_after_hash": tx["shifted"],
+        "text_level_file_workers_run": tx["workers"], "text_level_reader_modelled": tx["modelled"],
         "corpus_pairs": len(obs), "synthetic_cases": len(cases), "hw_histogram": hw_hist,
         "front_end_errors": sum(1 for r in obs if "err" in r["dev"] or "err" in r["file"]),
-        "file_side_through_real_files": sum(1 for r in obs if r.get("via_files")),
+        "file_side_through_real_files": sum(1 for r in obs if r.get("via_files")) + len(text_recs),
     })
     ctx.assumptions += ["no ACL, implicit defaults off (as the property states)",
                         "corpus pairs whose vendor text round-trips (join -> file -> parse gives the tree back) go "
                         "through the real file reader api._read_old_new_hw with args.hw = the model string, as "
                         "file_patch_worker does; the others and the synthetic rulebooks call _read_old_new_diff_patch "
-                        "on the trees; hw guessing (no --hw) is not part of the comparison"]
+                        "on the trees; hw guessing (no --hw) is not part of the comparison",
+                        "text level: a case is kept only when the noisy dump text parses back to the original tree on the "
+                        "DEVICE side (parse_to_tree with the vendor's split, as annet.gen calls it); the others are counted "
+                        "in text_level_skipped and go through the tree level instead",
+                        "the file workers' printed patch/diff text is compared (String.eqb in Coq) with the text the same "
+                        "formatting functions give for the device side's result; labels and colours are not compared"]
 
 
 def replay(ctx, doc):
     r = doc["replay"]
+    if "old_text" in r:   # a text-level case: the two dump texts are the failing input
+        print(f"hw={r.get('hw')!r} style={r.get('style')}\n--- old text\n{r['old_text']}\n--- new text\n{r['new_text']}")
+        print("same trees read:", r.get("file_old") == r.get("device_old") and r.get("file_new") == r.get("device_new"))
     print(r.get("device", {}).get("paths"), r.get("file", {}).get("paths"))
     return 1
